@@ -1079,8 +1079,8 @@ func c15r12(rc *core.RC) {
 			if !ok || rs.Value == nil {
 				return true
 			}
-			// range over <x>.fieldMap
-			if f := core.FieldOf(info, rs.X); f == nil || f.Name() != "fieldMap" {
+			// range over <x>.fieldMap or <x>.promotedFields()
+			if isProm, _ := promotionRange(p, info, rs); !isProm {
 				return true
 			}
 			inner := core.ObjOf(info, rs.Value)
@@ -1961,6 +1961,43 @@ func c15r20(rc *core.RC) {
 // When the members of an embedded struct are promoted into the outer struct, the aliases must stay behind: promoted
 // as if it were a member called "x", the alias of a hidden A.X survives the conflict resolution (nothing else is
 // called "x" exactly) and the key "x" then selects A.X instead of the outer X that hides it.
+// promotionRange tells whether rs, a range statement of the decoder's compileStruct, walks the fields an embedded
+// struct decoder hands up: `range X.fieldMap` or `range X.promotedFields()` with X a *structDecoder. It returns the
+// function behind the call form (nil for the direct form).
+func promotionRange(p *core.Program, info *types.Info, rs *ast.RangeStmt) (bool, *ast.FuncDecl) {
+	x := core.Unparen(rs.X)
+	isDec := func(e ast.Expr) bool {
+		t := info.TypeOf(e)
+		return t != nil && strings.HasSuffix(t.String(), "decoder.structDecoder")
+	}
+	if sel, ok := x.(*ast.SelectorExpr); ok {
+		if f := core.FieldOf(info, sel); f != nil && f.Name() == "fieldMap" && isDec(sel.X) {
+			return true, nil
+		}
+	}
+	if call, ok := x.(*ast.CallExpr); ok {
+		if sel, isSel := core.Unparen(call.Fun).(*ast.SelectorExpr); isSel && isDec(sel.X) {
+			if f := core.Callee(info, call); f != nil {
+				if hd := p.DeclOf(f); hd != nil && hd.Body != nil {
+					reads := false
+					ast.Inspect(hd.Body, func(m ast.Node) bool {
+						if s2, isS := m.(*ast.SelectorExpr); isS {
+							if fv := core.FieldOf(p.Info(hd), s2); fv != nil && fv.Name() == "fieldMap" {
+								reads = true
+							}
+						}
+						return true
+					})
+					if reads {
+						return true, hd
+					}
+				}
+			}
+		}
+	}
+	return false, nil
+}
+
 func c15r21(rc *core.RC) {
 	p := rc.P
 	fd := p.Func("decoder", "compileStruct")
@@ -1973,22 +2010,38 @@ func c15r21(rc *core.RC) {
 	k := 0
 	ast.Inspect(fd.Body, func(m ast.Node) bool {
 		rs, ok := m.(*ast.RangeStmt)
-		if !ok || rs.Key == nil || rs.Value == nil {
-			return true
-		}
-		f := core.FieldOf(info, rs.X)
-		if f == nil || f.Name() != "fieldMap" {
-			return true
-		}
-		sel, ok := core.Unparen(rs.X).(*ast.SelectorExpr)
 		if !ok {
 			return true
 		}
-		if t := info.TypeOf(sel.X); t == nil || !strings.HasSuffix(t.String(), "decoder.structDecoder") {
+		isProm, via := promotionRange(p, info, rs)
+		if !isProm {
 			return true
 		}
 		k++
 		key := fmt.Sprintf("decoder.compileStruct/promotion#%d aliases-stay-behind", k)
+		info := info
+		if via != nil {
+			// the fields come from a function of the embedded decoder: the loop over its field map is there
+			info = p.Info(via)
+			var inner *ast.RangeStmt
+			ast.Inspect(via.Body, func(q ast.Node) bool {
+				if r2, isR := q.(*ast.RangeStmt); isR && inner == nil {
+					if f := core.FieldOf(info, r2.X); f != nil && f.Name() == "fieldMap" {
+						inner = r2
+					}
+				}
+				return true
+			})
+			if inner == nil {
+				rc.Unknown(key, rs.Pos(), "no loop over the field map in %s", via.Name.Name)
+				return true
+			}
+			rs = inner
+		}
+		if rs.Key == nil || rs.Value == nil {
+			rc.Bad(key, rs.Pos(), "the loop over the embedded decoder's field map does not look at the map keys: the lower-case aliases are promoted as members")
+			return true
+		}
 		kobj, vobj := core.ObjOf(info, rs.Key), core.ObjOf(info, rs.Value)
 		skips := false
 		for _, st := range rs.Body.List {
@@ -2524,5 +2577,122 @@ func c15r25(rc *core.RC) {
 		rc.Bad(key, fd.Pos(), "IsIgnoredStructField tests neither field.PkgPath nor field.IsExported(): fields that are not exported are not told from exported ones")
 	default:
 		rc.OK(key, fd.Pos(), "a field is taken for unexported when reflect says so (PkgPath / IsExported); no test of a letter's case takes part")
+	}
+}
+
+// ---- C15.R26 a name that is ambiguous in an embedded struct stays ambiguous in the struct that embeds it ----
+
+// encoding/json resolves a member name over all embedding levels at once: the fields of that name at the shallowest
+// depth decide, and when they are two or more without a single tagged one the name has no field at all, however many
+// fields of that name lie deeper. Both compilers here resolve a struct by itself and then promote what is left of it.
+// The fields an embedded struct dropped as ambiguous must therefore travel with it: in the struct that embeds it they
+// are candidates at their depth (they hide a deeper field of the name and stay ambiguous). Obligations: the decoder's
+// compileStruct records the dropped fields of a struct (structDecoder.ambiguousFields, from filterDuplicatedFields)
+// and promotes the fields of an embedded struct through a function that reads both fieldMap and ambiguousFields,
+// never by ranging over another decoder's fieldMap itself; the encoder's structCode records StructCode.ambiguous and
+// getAnonymousFieldMap enters those fields into the field map of the embedding struct.
+func c15r26(rc *core.RC) {
+	p := rc.P
+	fieldUse := func(short string, fd *ast.FuncDecl, field string) (reads, writes int) {
+		if fd == nil || fd.Body == nil {
+			return
+		}
+		info := p.Info(fd)
+		lhs := map[ast.Node]bool{}
+		ast.Inspect(fd.Body, func(m ast.Node) bool {
+			if as, ok := m.(*ast.AssignStmt); ok {
+				for _, l := range as.Lhs {
+					lhs[core.Unparen(l)] = true
+				}
+			}
+			return true
+		})
+		ast.Inspect(fd.Body, func(m ast.Node) bool {
+			sel, ok := m.(*ast.SelectorExpr)
+			if !ok {
+				return true
+			}
+			if f := core.FieldOf(info, sel); f != nil && f.Name() == field && f.Pkg() != nil && strings.HasSuffix(f.Pkg().Path(), "internal/"+short) {
+				if lhs[sel] {
+					writes++
+				} else {
+					reads++
+				}
+			}
+			return true
+		})
+		return
+	}
+	// decoder
+	{
+		key := "decoder.compileStruct/ambiguous-fields-travel-with-the-embedded-struct"
+		cs := p.Func("decoder", "compileStruct")
+		if cs == nil {
+			rc.Unknown(key, token.NoPos, "compileStruct not found")
+		} else {
+			rc.Touch(p.FuncName(cs))
+			info := p.Info(cs)
+			_, w := fieldUse("decoder", cs, "ambiguousFields")
+			// a range over the fieldMap of a decoder other than the one under construction
+			var direct ast.Node
+			ast.Inspect(cs.Body, func(m ast.Node) bool {
+				rs, ok := m.(*ast.RangeStmt)
+				if !ok {
+					return true
+				}
+				if sel, isSel := core.Unparen(rs.X).(*ast.SelectorExpr); isSel {
+					if f := core.FieldOf(info, sel); f != nil && f.Name() == "fieldMap" && direct == nil {
+						direct = rs
+					}
+				}
+				return true
+			})
+			// the function the promoted fields come from
+			through := ""
+			ast.Inspect(cs.Body, func(m ast.Node) bool {
+				rs, ok := m.(*ast.RangeStmt)
+				if !ok {
+					return true
+				}
+				if call, isCall := core.Unparen(rs.X).(*ast.CallExpr); isCall {
+					if f := core.Callee(info, call); f != nil {
+						if hd := p.DeclOf(f); hd != nil {
+							r1, _ := fieldUse("decoder", hd, "fieldMap")
+							r2, _ := fieldUse("decoder", hd, "ambiguousFields")
+							if r1 > 0 && r2 > 0 {
+								through = f.Name()
+							}
+						}
+					}
+				}
+				return true
+			})
+			switch {
+			case direct != nil:
+				rc.Bad(key, direct.Pos(), "compileStruct promotes the fields of an embedded struct by ranging over that decoder's fieldMap: the fields it dropped as ambiguous are not seen, so two X at one depth in one embedded struct do not hide an X that lies deeper in another (encoding/json gives the name no field; here the deeper one is written and set)")
+			case w == 0 || through == "":
+				rc.Bad(key, cs.Pos(), "the fields a struct drops because their name is ambiguous are not recorded (structDecoder.ambiguousFields assigned %d time(s)) or not promoted with the struct's other fields (through: %q): ambiguity is resolved per embedding level, not over the whole struct as encoding/json does", w, through)
+			default:
+				rc.OK(key, cs.Pos(), "the dropped fields are recorded and promoted with the others through %s", through)
+			}
+		}
+	}
+	// encoder
+	{
+		key := "encoder.(*Compiler).structCode/ambiguous-fields-travel-with-the-embedded-struct"
+		sc := p.Func("encoder", "Compiler.structCode")
+		am := p.Func("encoder", "Compiler.getAnonymousFieldMap")
+		if sc == nil || am == nil {
+			rc.Unknown(key, token.NoPos, "structCode or getAnonymousFieldMap not found")
+			return
+		}
+		rc.Touch(p.FuncName(sc))
+		_, w := fieldUse("encoder", sc, "ambiguous")
+		r, _ := fieldUse("encoder", am, "ambiguous")
+		if w > 0 && r > 0 {
+			rc.OK(key, sc.Pos(), "structCode records the fields dropped as ambiguous and getAnonymousFieldMap enters them into the field map of the embedding struct")
+		} else {
+			rc.Bad(key, sc.Pos(), "the fields a struct drops because their name is ambiguous are not recorded (StructCode.ambiguous assigned in structCode %d time(s)) or not entered into the field map of the struct that embeds it (read in getAnonymousFieldMap %d time(s)): a deeper field of the name is written where encoding/json writes none", w, r)
+		}
 	}
 }
